@@ -183,6 +183,34 @@ def run(ctx, F, cg):
             ctx.ok("R17b", "validator", "%s rejects ids containing %r" % (chk.rsplit("::", 1)[-1], sepc))
         else:
             ctx.violation("R17b", "validator", where(r), "%s does not reject tenant ids containing the key separator %r" % (chk, sepc))
+    # ---- R17d: what a tenant-taking read returns comes from a tenant-keyed place ---------------------------------
+    ctx.rule("R17d", "the storage layer keeps no entity state keyed without the tenant: every field of PersistentStorage / PersistenceManager that is a map or set keyed by a bare id (u64 / NodeId / EdgeId) and holds entities is a cross-tenant channel (a read cache keyed by node id alone serves tenant A's node to tenant B)")
+    n_f = 0
+    for st in ("persistence::storage::PersistentStorage", "persistence::PersistenceManager"):
+        try:
+            adt_ = F.adt(st)
+        except Exception as ex:
+            ctx.anchor_failure("R17d", st)
+            continue
+        for fname, fty, _ in adt_["variants"][0]["fields"]:
+            n_f += 1
+            inst = "%s.%s" % (st.rsplit("::", 1)[-1], fname)
+            keyed = None
+            for mk in ("HashMap<", "BTreeMap<", "LruCache<", "DashMap<", "FxHashMap<", "HashSet<", "BTreeSet<"):
+                if mk in fty:
+                    inner = fty.split(mk, 1)[1]
+                    keyed = inner.split(",", 1)[0].split(">", 1)[0].strip()
+                    break
+            if keyed is None:
+                ctx.ok("R17d", inst, "not a keyed collection")
+                continue
+            bare = keyed in ("u64", "u32", "usize") or keyed.endswith("types::NodeId") or keyed.endswith("types::EdgeId")
+            if bare:
+                ctx.violation("R17d", inst + "|not-tenant-keyed", where({"file": adt_["file"], "line": adt_["line"], "path": st}),
+                              "%s is a collection keyed by `%s` alone inside the tenant-partitioned storage layer: entries of different tenants with the same id collide, so a point read (and the read-merge-write of an update) of one tenant can return or overwrite another tenant's entity" % (inst, keyed))
+            else:
+                ctx.ok("R17d", inst, "keyed by %s" % keyed)
+    ctx.floor("R17d", "fields of the storage layer examined", n_f, 6)
     return ("Decided: (a) records of a prefix scan are used only behind a key-vs-prefix test, so a scan cannot run on into the next tenant's keys; "
             "(b) every storage entry point validates the tenant id against the separator before touching RocksDB, so no accepted id is a key-prefix of "
             "another's key space; (c) key builders, scan prefixes and the tenant listing agree on the separator. Together these give isolation for "
